@@ -173,6 +173,7 @@ func GenCliFamily(w *Writer, r *Rng, t Tier) error {
 	if _, err := os.Stat(CliPath()); err != nil {
 		return fmt.Errorf("CLI binary missing: %v", err)
 	}
+	cliProbes(w)
 	exprs := []string{"/r/a", "//a", "count(//a)", "/r/a[1]", "//a/@id", "string(/r/b)", "//*", "/nothing", "//a[. = $v]", "//p:a", "/#obj/a", "//a | //b", "//text()", "1 + 1", "//a/ancestor::*", "/html/body/*", "//comment()", "$v", "concat('[', $v, ']')", "string-length($v)", "$p:w", "concat($p:w, '|', count(//p:a))"}
 	for i := 0; i < n; i++ {
 		cr := r.Fork()
@@ -523,4 +524,75 @@ func CliRoundTrip(content, xp string) string {
 		}
 	}
 	return "roundtrip-ok"
+}
+
+// cliProbes: command lines whose expected output is given by OTHER runs of the same binary (differential): what
+// is printed for a file does not depend on which other entries are named before it or lie next to it.
+func cliProbes(w *Writer) {
+	run := func(dir string, args ...string) string {
+		cmd := exec.Command(CliPath(), args...)
+		cmd.Dir = dir
+		var so, se bytes.Buffer
+		cmd.Stdout, cmd.Stderr = &so, &se
+		_ = cmd.Run()
+		return so.String()
+	}
+	linesOf := func(out, prefix string) string {
+		var keep []string
+		for _, l := range strings.Split(out, "\n") {
+			if strings.HasPrefix(l, prefix) {
+				keep = append(keep, l)
+			}
+		}
+		return strings.Join(keep, "\n")
+	}
+	// (1) -r over a directory that contains a symbolic link to a directory: every regular file of the tree is
+	// still searched, those that sort after the link included
+	symlink := guard(func() string {
+		root, err := os.MkdirTemp("", "xsel-cli-probe-")
+		if err != nil {
+			return "ok"
+		}
+		defer os.RemoveAll(root)
+		doc := "<r><a>1</a></r>"
+		for _, f := range []string{"tree/a.xml", "tree/b/inner.xml", "tree/n.xml", "tree/p/inner.xml", "tree/z.xml", "elsewhere/e.xml"} {
+			os.MkdirAll(filepath.Dir(filepath.Join(root, f)), 0o755)
+			os.WriteFile(filepath.Join(root, f), []byte(doc), 0o644)
+		}
+		before := run(root, "-r", "-x", "/r/a", "tree")
+		if err := os.Symlink(filepath.Join(root, "elsewhere"), filepath.Join(root, "tree", "m")); err != nil {
+			return "ok" // no symbolic links here
+		}
+		after := run(root, "-r", "-x", "/r/a", "tree")
+		for _, f := range []string{"tree/a.xml", "tree/b/inner.xml", "tree/n.xml", "tree/p/inner.xml", "tree/z.xml"} {
+			if linesOf(before, f) == "" {
+				return "ok" // not the output format this probe understands
+			}
+			if linesOf(after, f) != linesOf(before, f) {
+				return "a-symbolic-link-to-a-directory-hides-" + f
+			}
+		}
+		return "ok"
+	})
+	w.Line("fuzz", okOnly(symlink == "ok", symlink), map[string]interface{}{"k": "fuzz", "fam": "cli-symlink-dir", "text": "-r over a directory with a symbolic link to a directory between regular files", "outcome": symlink, "expect": "ok", "n": 5})
+	// (2) -m: the records printed for a file do not depend on the files named before it, even when an earlier
+	// file's record could not be written
+	stale := guard(func() string {
+		root, err := os.MkdirTemp("", "xsel-cli-probe-")
+		if err != nil {
+			return "ok"
+		}
+		defer os.RemoveAll(root)
+		os.WriteFile(filepath.Join(root, "first.xml"), []byte("<r xmlns:xlink='http://www.w3.org/1999/xlink'><a xlink:href='u' k='?>'/></r>"), 0o644)
+		os.WriteFile(filepath.Join(root, "second.xml"), []byte("<r><ref id='q1'/><ref id='q2'/></r>"), 0o644)
+		for _, xp := range []string{"//@*", "//ref | //@*", "//*"} {
+			alone := linesOf(run(root, "-m", "-x", xp, "second.xml", "second.xml"), "second.xml")
+			both := linesOf(run(root, "-m", "-x", xp, "first.xml", "second.xml", "second.xml"), "second.xml")
+			if alone != both {
+				return "records-of-a-file-depend-on-the-file-before-it: " + xp
+			}
+		}
+		return "ok"
+	})
+	w.Line("fuzz", okOnly(stale == "ok", stale), map[string]interface{}{"k": "fuzz", "fam": "cli-m-after-failed-record", "text": "-m over two files, the first with nodes the XML encoder refuses", "outcome": stale, "expect": "ok", "n": 3})
 }
